@@ -230,8 +230,12 @@ Definition replicate_change (n : node) (dbn : str) (ch : change) : node :=
 
 Definition conflict_key (ch : change) : str :=
   "$conflicts_" +++ c_key ch +++ "_" +++ N_to_str (c_opp ch).
+(* fix: a plain prefix test ("$conflicts_<key>_"); going through the key-listing patterns dropped every '*',
+   also the ones inside the key's name, so a key such as "a*b" never found its own records *)
 Definition list_conflicts_keys (d : db) (key : str) : list str :=
-  list_keys d (if String.eqb key "" then "$conflicts_*" else "$conflicts_" +++ key +++ "_*") true.
+  let prefix := if String.eqb key "" then "$conflicts_" else "$conflicts_" +++ key +++ "_" in
+  sort_strs (map fst (filter (fun kv =>
+      negb (vstate_eqb (v_st (snd kv)) VDeleted) && starts_with (fst kv) prefix) (d_map d))).
 
 Definition has_arbiter (d : db) : bool :=
   match assoc_get String.eqb "$conflicts" (d_watch d) with Some _ => true | None => false end.
